@@ -142,8 +142,9 @@ func (l *basicLoader) SetEntry(name px.TypedName, entry px.LoaderEntry) px.Loade
 		}
 		ov := old.Value()
 		if ov == nil {
-			*old.(*loaderEntry) = *entry.(*loaderEntry)
-			return old
+			// the entry without value is replaced, not written to: other go routines read it without the lock
+			l.namedEntries[name.MapKey()] = entry
+			return entry
 		}
 		nv := entry.Value()
 		if ov == nv {
